@@ -66,7 +66,7 @@ def model_check(prop, runs, workers=2):
         return r, res, fired
 
     info, states, trans, problems = [], 0, 0, []
-    with cf.ThreadPoolExecutor(max_workers=4) as ex:
+    with cf.ThreadPoolExecutor(max_workers=6) as ex:
         for (name, kw, expect, acts), res, fired in ex.map(one, runs):
             info.append({"cfg": name, "constants": {k: v for k, v in kw.items() if k not in ("inv",)}, "distinct": res.get("distinct"),
                          "generated": res.get("generated"), "depth": res.get("depth"), "wall_s": res["wall_s"],
@@ -85,11 +85,18 @@ def model_check(prop, runs, workers=2):
     return info, states, trans, problems
 
 
-def printed(prop, tag, inv, **kw):
-    vals, _ = vlib.tlc_gen(f"{prop}-{tag.lower()}", "Pruning", cfg(inv=inv, **kw), tag=tag, workers=1, timeout=900, xmx="2g")
-    if not vals:
-        raise vlib.ToolError(f"TLC printed no {tag}")
-    return vals[0]
+def printed(prop, name, tags, **kw):
+    """One TLC run that prints several lists (ATOMS / PREDS / STRS); returns {tag: value}."""
+    inv = " ".join({"ATOMS": "AtomList", "PREDS": "PredList", "STRS": "StrList"}[t] for t in tags)
+    vals, _ = vlib.tlc_gen(f"{prop}-{name}", "Pruning", cfg(inv=inv, **kw), tag=tags[0], workers=1, timeout=900, xmx="2g")
+    out = open(os.path.join(vlib.WORK, f"gen-{prop}-{name}", "out.txt")).read()
+    res = {}
+    for t in tags:
+        v = vlib._printed(out, t)
+        if not v:
+            raise vlib.ToolError(f"TLC printed no {t}")
+        res[t] = v[0]
+    return res
 
 
 # ------------------------------------------------------------------------------------------ scenarios
@@ -207,6 +214,7 @@ def run_groups(prop, groups, timeout=3000):
         for i, s in enumerate(scns):
             sid += 1
             s["id"] = sid
+            s["speckind"], s["k"] = sk, k
             shards[i % nsh].append(s)
         for j, sh in enumerate(shards):
             jobs.append((sk, k, j, sh))
@@ -221,7 +229,10 @@ def run_groups(prop, groups, timeout=3000):
                 f.write(json.dumps(s) + "\n")
         tf = os.path.join(wd, f"trace-{tag}.ndjson")
         t0 = time.time()
-        vlib.harness_run(binary, ["--scenarios", sf, "--out", tf, "--scratch", f"{scratch}-{tag}"], timeout=timeout)
+        # VERIF_PRUNING_MUTATE=<name>: the driver post-processes what lance returned as a mutated lance would have
+        # (binding demonstration only, see vh_pruning.rs `mutate`)
+        extra = ["--mutate", os.environ["VERIF_PRUNING_MUTATE"]] if os.environ.get("VERIF_PRUNING_MUTATE") else []
+        vlib.harness_run(binary, ["--scenarios", sf, "--out", tf, "--scratch", f"{scratch}-{tag}"] + extra, timeout=timeout)
         shutil.rmtree(f"{scratch}-{tag}", ignore_errors=True)
         h = time.time() - t0
         v = vlib.tlc_trace(f"{prop}-{tag}", "Trace_Pruning", trace_cfg(sk, k), tf, timeout=timeout, xmx="4g")
@@ -239,6 +250,7 @@ CALIBRATION = {"UnprunedEqualsEval", "History", "UnknownVariant"}
 def judge(prop, out, results, own):
     """Turn the REPORTs into findings.  Calibration / history failures are tool errors: the oracle itself is off."""
     counts, events, samples, bad_scn, nscn, timing = {}, 0, [], set(), 0, []
+    sigs = {}
     for (sk, k, j, sh), sf, tf, rep, h_s, v_s in results:
         timing.append({"group": f"{sk}{k}-{j}", "harness_s": h_s, "validate_s": v_s, "events": rep["events"]})
         events += rep["events"]
@@ -264,7 +276,8 @@ def judge(prop, out, results, own):
             sig = {"invariant": inv, "index": itype, "class": cls}
             if storage == "legacy":
                 sig["storage"] = "legacy"
-            ev.pop("results", None) if False else None
+            key = json.dumps(sig, sort_keys=True)
+            sigs[key] = sigs.get(key, 0) + 1
             out.report(sig, f"{inv} {cls} [{var}] index={itype} kind={s.get('kind')} history={s.get('hist')}: predicate {ev.get('sql')} "
                             f"-> {json.dumps([(r['name'], r['ids']) for r in ev.get('results', [])])[:300]} search={json.dumps(ev.get('search'))[:160]}",
                        {"scenario": {k2: v2 for k2, v2 in s.items() if k2 != "steps"}, "steps": [
@@ -276,4 +289,20 @@ def judge(prop, out, results, own):
             if ls:
                 e = json.loads(ls[len(ls) // 2])
                 samples.append({k2: e[k2] for k2 in ("scn", "pred", "sql", "results", "search")})
+    counts["findings_by_signature"] = sigs
     return counts, events, samples, bad_scn, nscn, timing
+
+
+def replay(prop, path, own):
+    """bin/check Cxx --replay <file>: re-run the single stored scenario (one predicate) and judge it."""
+    payload = json.load(open(path))
+    case = payload["case"]
+    scn = dict(case["scenario"])
+    scn["steps"] = case["steps"]
+    out = vlib.Outcome(prop)
+    sk = scn.get("speckind", SPEC_KIND[scn["kind"]])
+    k = scn.get("k", {"int32": 3, "int64": 3, "text": 0}.get(scn["kind"], 6))
+    results, _ = run_groups(prop + "-replay", {(sk, k): [scn]})
+    counts, events, samples, bad_scn, nscn, timing = judge(prop, out, results, own)
+    print(f"replay: {counts.get('queries', 0)} queries, findings {counts.get('findings_by_signature')}")
+    return out.finish()
